@@ -378,6 +378,21 @@ static int run(Case const& c, std::string const& scratch, int fd)
       go_sig[t].store(sig_num(parts[2]));
       while (go_sig[t].load() != 0) std::this_thread::sleep_for(std::chrono::microseconds{200});   // parked unless the raise returns
     }
+    else if (op.rfind("dsig:", 0) == 0)
+    {
+      // two threads raise (different) signals at about the same time: one is the first entrant, the other parks
+      auto parts = split(op, ':');
+      int t = atoi(parts[1].c_str());
+      int st = sig_num(parts[2]), sm = sig_num(parts[3]);
+      int delay_us = parts.size() > 4 ? atoi(parts[4].c_str()) : 0;
+      if (graceful(st) || graceful(sm)) quiesce_threads();
+      snap(k);
+      go_sig[t].store(st);
+      auto until = Clock::now() + std::chrono::microseconds{delay_us};
+      while (Clock::now() < until) {}
+      raise(sm);
+      report("CONT %d\n", k);
+    }
     else if (op.rfind("texit:", 0) == 0)
     {
       int t = atoi(op.c_str() + 6);
@@ -621,10 +636,16 @@ int main(int argc, char** argv)
     // what ended the script
     std::string term = c.script.back();
     int sig_thread = -1, sg = 0;
-    bool is_sig = false, raise_on_backend = false;
+    bool is_sig = false, raise_on_backend = false, is_dsig = false;
+    int d_thread = 0, d_sig_t = 0, d_sig_m = 0;
     for (auto const& op : c.script)
     {
       auto parts = split(op, ':');
+      if (parts[0] == "dsig")
+      {
+        is_sig = true; is_dsig = true;
+        d_thread = atoi(parts[1].c_str()); d_sig_t = sig_num(parts[2]); d_sig_m = sig_num(parts[3]);
+      }
       if (parts[0] == "sig") { is_sig = true; sig_thread = 0; sg = sig_num(parts[1]); }
       else if (parts[0] == "tsig") { is_sig = true; sig_thread = atoi(parts[1].c_str()); sg = sig_num(parts[2]); }
       else if (parts[0] == "bsig") { is_sig = true; raise_on_backend = true; sg = sig_num(parts[1]); }
@@ -639,7 +660,16 @@ int main(int argc, char** argv)
       else if (op == "S") { if (!backend_up) { handler_cycle = false; backend_up = true; } }
       else if (op == "I") handler_installed = true;
       else if (op == "X") { backend_up = false; handler_cycle = false; }
-      else if (op.rfind("sig:", 0) == 0 || op.rfind("tsig:", 0) == 0 || op.rfind("bsig:", 0) == 0) { ++nsigops; break; }
+      else if (op.rfind("sig:", 0) == 0 || op.rfind("tsig:", 0) == 0 || op.rfind("bsig:", 0) == 0 || op.rfind("dsig:", 0) == 0) { ++nsigops; break; }
+    }
+    if (is_dsig)
+    {
+      // which of the two was the first entrant is the schedule's choice: read it off the notice (or the wait status)
+      int first = nsig ? nsig : (r.status == "sig:" + sig_name(d_sig_t) ? d_sig_t : d_sig_m);
+      if (first != d_sig_t && first != d_sig_m) oracle.push_back("notice-for-a-signal-nobody-raised signum=" + std::to_string(first));
+      sg = (first == d_sig_t) ? d_sig_t : d_sig_m;
+      sig_thread = (first == d_sig_t) ? d_thread : 0;
+      if (n_info > 1 || n_crit > 1) oracle.push_back("later-entrant-logged info=" + std::to_string(n_info) + " critical=" + std::to_string(n_crit));
     }
     bool graceful = (sg == SIGINT || sg == SIGTERM);
     bool premise = is_sig && !raise_on_backend && handler_cycle && backend_up && c.logger && c.reraise && nsigops == 1 &&
